@@ -26,13 +26,17 @@ struct Tel {
 static Bytes cat(Bytes a, const Bytes& b) { a.insert(a.end(), b.begin(), b.end()); return a; }
 static Bytes telWire(const Tel& t) {
   Bytes b;
+  // nakM/nakS: 1 = first attempt with wrong CRC and NAK-ed, 2 = correct first attempt NAK-ed, 3 = NAK-ed twice and sent
+  // a third time without a SYN in between (second NAK: nothing of it may be reported)
   if (t.nakM) b = cat(cat(b, ref::wirePart(t.master, t.nakM == 1 ? 0x01 : 0)), Bytes{ref::NAK});
+  if (t.nakM == 3) b = cat(cat(b, ref::wirePart(t.master)), Bytes{ref::NAK});
   b = cat(b, ref::wirePart(t.master));
   uint8_t zz = t.master[1];
   if (zz == ref::BROADCAST) return b;
   b.push_back(ref::ACK);
   if (ref::isMaster(zz)) return b;
   if (t.nakS) b = cat(cat(b, ref::wirePart(t.slave, t.nakS == 1 ? 0x01 : 0)), Bytes{ref::NAK});
+  if (t.nakS == 3) b = cat(cat(b, ref::wirePart(t.slave)), Bytes{ref::NAK});
   b = cat(b, ref::wirePart(t.slave));
   b.push_back(ref::ACK);
   return b;
@@ -67,6 +71,9 @@ static std::vector<Tel> catalogue(bool full) {
   c.push_back(mk("1008b509020d00", "015a", 0, 1));     // slave part NAK-ed
   c.push_back(mk("1036070400", "0a0102030405060708090a"));  // to the default own slave address, nobody answering configured
   c.push_back(mk("31fe070400"));                       // source == default own master address
+  c.push_back(mk("1008b509020d00", "015a", 3, 0));     // master part NAK-ed twice, then sent a third time without SYN
+  c.push_back(mk("1030b5100155", "", 3, 0));           // the same for a master-master telegram
+  c.push_back(mk("1008b509020d00", "015a", 0, 3));     // slave part NAK-ed twice, then sent a third time
   if (full) {
     c.push_back(mk("1008b509020d00", "015a", 2, 2));   // both parts NAK-ed although good
     c.push_back(mk("1008b509020d00", "015a", 1, 1));
@@ -306,6 +313,23 @@ static std::vector<Scenario> scenariosC02(bool thorough, const vp::Args& A) {
         }
       }
     }
+    // own request followed by a foreign exchange: a failed own exchange must be over before the next telegram
+    // (a SYN ending it that arrives in one read chunk with the following telegram left the request active once)
+    for (int kind = 0; kind < 3; kind++) for (int f = 0; f < 2; f++) {
+      Scenario s;
+      s.enhanced = enh;
+      s.busLostRetries = 1;
+      ReqSpec q;
+      q.master = kind == 0 ? ref::unhex("31fe070400") : kind == 1 ? ref::unhex("3110b51001a9") : ref::unhex("3108b509010d");
+      q.responder = responder(q.master, ref::unhex("015a"), 0);
+      s.reqs.push_back(q);
+      s.foreign.push_back(telScript(f ? mk("1008b509020d00", "0277aa") : mk("0310b5100155")));
+      s.tailSyns = 2;
+      s.k = thorough ? 2 : 1;
+      s.c = 1;
+      s.name = std::string(enh ? "enh" : "plain") + "/then-foreign/kind" + std::to_string(kind) + "/f" + std::to_string(f) + "/k" + std::to_string(s.k);
+      v.push_back(s);
+    }
     // data sweep: NN=1, all 256 data values, three destination kinds, conformant participant, k=0 (thorough k=1)
     const uint8_t dsts[3] = {0xFE, 0x10, 0x08};
     for (int d = 0; d < 3; d++) for (int val = 0; val < 256; val++) {
@@ -335,7 +359,8 @@ static std::vector<Scenario> scenariosC03(bool thorough, const vp::Args& A) {
   Tel foreignMS = mk("1008b509020d00", "015a"), foreignBC = mk("10fe070400");
   for (int enh = 0; enh < 2; enh++) {
     for (size_t ci = 0; ci < cfgs.size(); ci++) {
-      for (int shape = 0; shape < (thorough ? 5 : 4); shape++) {
+      for (int shape = 0; shape < 6; shape++) {
+        if (shape == 4 && !thorough) continue;
         Scenario s;
         s.enhanced = enh;
         s.own = cfgs[ci].own; s.readOnly = cfgs[ci].readOnly; s.genSyn = cfgs[ci].genSyn;
@@ -351,6 +376,7 @@ static std::vector<Scenario> scenariosC03(bool thorough, const vp::Args& A) {
           case 1: addReq(m1, Bytes{0x01, 0x5a}, true); s.foreign.push_back(telScript(foreignMS)); s.r = 1; break;  // arrives at any moment during foreign traffic
           case 2: addReq(m2, Bytes{}, false); addReq(m3, Bytes{}, false); s.foreign.push_back(telScript(foreignBC)); break;
           case 3: addReq(m1, Bytes{0x01, 0x5a}, true); addReq(m2, Bytes{}, true); s.r = 2; break;
+          case 5: addReq(m3, Bytes{}, false); s.foreign.push_back(telScript(foreignMS)); break;  // failed own exchange directly followed by foreign traffic
           case 4: addReq(m1, Bytes{0x01, 0x5a}, true); addReq(m2, Bytes{}, true); addReq(m3, Bytes{}, true); s.foreign.push_back(telScript(foreignMS)); s.r = 3; break;
         }
         s.tailSyns = 4;
@@ -699,7 +725,7 @@ int main(int argc, char** argv) {
     mf = [](World& w, VSink* s) { return std::vector<Monitor*>{new RecvMonitor(s)}; };
   } else if (prop == "C02") {
     scs = scenariosC02(th, A);
-    mf = [](World& w, VSink* s) { return std::vector<Monitor*>{new ActiveMonitor(s, w.sc, true, false)}; };
+    mf = [](World& w, VSink* s) { return std::vector<Monitor*>{new ActiveMonitor(s, w.sc, true, false), new CompletionMonitor(s, &w, "C02/completion/")}; };
   } else if (prop == "C04") {
     scs = scenariosC04(th, A);
     mf = [](World& w, VSink* s) { return std::vector<Monitor*>{new CompletionMonitor(s, &w)}; };
